@@ -2,7 +2,7 @@
    Print Assumptions is run on every Theorem by bin/check. *)
 From Coq Require Import List NArith ZArith Bool Lia.
 From V Require Import C12.Model C13.Model C13.Proofs C13.Proofs_Votes C13.Proofs_Replay C13.Proofs_Commit C13.Proofs_Resume
-  C13.Proofs_Obs C13.Proofs_ObsStep C13.Proofs_Crash C13.Proofs_Inv C13.Proofs_Final C13.Proofs_State C13.Proofs_Tail.
+  C13.Proofs_Obs C13.Proofs_ObsStep C13.Proofs_Crash C13.Proofs_Inv C13.Proofs_Final C13.Proofs_State C13.Proofs_Tail C13.Proofs_Lives.
 Import ListNotations.
 Open Scope N_scope.
 
@@ -304,3 +304,42 @@ Example ex_plain_run_with_future_messages :
     replay_covers (at_or_above h1 pre) (flat (snd post)))
     (seq 0 (S (length (flat (snd (lifetime ex_env_fixed 1 [] 0 fut_ok_ins)))))) = true.
 Proof. vm_compute. split; reflexivity. Qed.
+
+(* ---------- any number of crashes ---------- *)
+(* Worlds E H D EH (Model.v): the worlds a validator process can be started in - initially an empty log at
+   h0 >= 1; then ANY number of lives, each recovering from the log the previous one left, running a plain live
+   phase (live_good) and being killed after ANY number k of its effects (also in the middle of its recovery).
+   EH collects the effects of all those earlier lives.  A life started in such a world (any inputs that respect
+   the calling discipline in its live phase) never broadcasts a prevote / precommit that conflicts with one
+   broadcast by ANY earlier life; its own recovery respects the calling discipline (life_disc is derived, not
+   assumed); its commit callbacks continue consecutively from H. *)
+Theorem C13_no_conflict_any_number_of_crashes : forall E, value_deterministic E -> quorum_positive E ->
+  forall H D EH n ins, Worlds E H D EH ->
+  listen_disc E (fst (starts E SFUEL (fst (recover E H D n)))) ins = true ->
+  no_conflict EH (flat (snd (lifetime E H D n ins))) = true /\ life_disc E H D n ins = true.
+Proof. exact no_conflict_any_crashes. Qed.
+
+Theorem C13_resume_height_any_number_of_crashes : forall E, value_deterministic E -> quorum_positive E ->
+  forall H D EH n ins, Worlds E H D EH ->
+  listen_disc E (fst (starts E SFUEL (fst (recover E H D n)))) ins = true ->
+  consecutive_from H (commits_in (flat (snd (lifetime E H D n ins)))) = true /\
+  s_h (d_sm (fst (lifetime E H D n ins))) = H + N.of_nat (length (commits_in (flat (snd (lifetime E H D n ins))))).
+Proof. exact resume_any_crashes. Qed.
+
+(* every reachable world is coherent: the log on disk can be recovered from (prunes below the resume height,
+   only messages above it, replay respects the calling discipline) and its replay re-broadcasts every vote any
+   earlier life broadcast for the resume height; no earlier vote is for a higher height *)
+Theorem C13_worlds_coherent : forall E, value_deterministic E -> quorum_positive E ->
+  forall H D EH, Worlds E H D EH -> Coh E H D EH.
+Proof. exact Worlds_Coh. Qed.
+
+(* a world reached through two kills (the second life killed while it is still recovering) *)
+Example ex_world_after_two_kills :
+  live_good ex_env_fixed (fst (recover ex_env_fixed 1 [] 0)) fut_ok_ins = true /\
+  (let effs1 := flat (snd (lifetime ex_env_fixed 1 [] 0 fut_ok_ins)) in
+   let H1 := resume_height 1 (firstn 12 effs1) in let D1 := crash_at 12 effs1 [] in
+   live_good ex_env_fixed (fst (recover ex_env_fixed H1 D1 3)) ex_ins = true /\
+   (let effs2 := flat (snd (lifetime ex_env_fixed H1 D1 3 ex_ins)) in
+    let H2 := resume_height H1 (firstn 2 effs2) in let D2 := crash_at 2 effs2 D1 in
+    no_conflict (firstn 12 effs1 ++ firstn 2 effs2) (flat (snd (lifetime ex_env_fixed H2 D2 9 ex_ins))) = true)).
+Proof. vm_compute. repeat split; reflexivity. Qed.
